@@ -1,7 +1,7 @@
 (* C18 — The native WebSocket masking routine equals the reference definition.
    Property theorems only; proofs are in Proofs.v. *)
 From Coq Require Import List NArith.
-From TV Require Import C18.Model C18.Proofs Gen.C18_src Gen.C18_equiv.
+From TV Require Import C18.Model C18.Proofs C18.Proofs2 Gen.C18_src Gen.C18_equiv.
 
 (* For every endianness, 4-byte mask and payload of any length, the word-level
    strategy read from speedups.c returns byte i XOR mask[i mod 4]. *)
@@ -25,3 +25,36 @@ Print Assumptions C18_rejects_bad_mask_length.
 Theorem C18_masking_is_an_involution : forall m d, mask_ref m (mask_ref m d) = d.
 Proof. exact mask_ref_involutive. Qed.
 Print Assumptions C18_masking_is_an_involution.
+
+Theorem C18_masking_preserves_length : forall m d, length (mask_ref m d) = length d.
+Proof. exact mask_ref_length. Qed.
+Print Assumptions C18_masking_preserves_length.
+
+(* The result is again a byte string (every output value is < 256). *)
+Theorem C18_masking_yields_bytes : forall m d, bytes m -> bytes d -> bytes (mask_ref m d).
+Proof. exact mask_ref_bytes. Qed.
+Print Assumptions C18_masking_yields_bytes.
+
+(* Masking chunk by chunk at 4-aligned boundaries equals masking the whole payload,
+   so the native routine (through C18_native_equals_reference) may be applied per chunk. *)
+Theorem C18_masking_distributes_over_aligned_chunks :
+  forall m a b k, length a = (4 * k)%nat -> mask_ref m (a ++ b) = mask_ref m a ++ mask_ref m b.
+Proof. exact mask_ref_app_aligned. Qed.
+Print Assumptions C18_masking_distributes_over_aligned_chunks.
+
+Theorem C18_native_distributes_over_aligned_chunks :
+  forall e m a b k, length m = 4 -> bytes m -> bytes a -> bytes b -> length a = (4 * k)%nat ->
+    mask_c_desc c_desc e m (a ++ b)
+    = match mask_c_desc c_desc e m a, mask_c_desc c_desc e m b with
+      | Some x, Some y => Some (x ++ y) | _, _ => None end.
+Proof.
+  intros e m a b k Hm Bm Ba Bb Ha.
+  rewrite !C18_native_equals_reference; auto.
+  - f_equal. eapply mask_ref_app_aligned; exact Ha.
+  - apply Forall_app; split; assumption.
+Qed.
+Print Assumptions C18_native_distributes_over_aligned_chunks.
+
+Theorem C18_zero_mask_is_identity : forall d, mask_ref (0 :: 0 :: 0 :: 0 :: nil)%N d = d.
+Proof. exact mask_ref_zero. Qed.
+Print Assumptions C18_zero_mask_is_identity.
